@@ -616,8 +616,13 @@ class BigQueryParser(parser.Parser):
 
             # Unnesting a nested array (i.e array of structs) explodes the top-level struct fields,
             # in contrast to other dialects such as DuckDB which flattens only the array by default
-            if unnest_expr.is_type(exp.DType.ARRAY) and any(
-                array_elem.is_type(exp.DType.STRUCT) for array_elem in unnest_expr._type.expressions
+            unnest_type = unnest_expr.type
+            if (
+                unnest_type
+                and unnest_expr.is_type(exp.DType.ARRAY)
+                and any(
+                    array_elem.is_type(exp.DType.STRUCT) for array_elem in unnest_type.expressions
+                )
             ):
                 unnest.set("explode_array", True)
 
